@@ -35,6 +35,7 @@ def make_tables(rnd, wd):
                          'x': [rnd.choice([-2.5, 0.0, 1.25, 3.5, 10.0]) for _ in range(n)],
                          'y': [rnd.choice([40.0, 55.5, 80.0, 100.0, 200.0]) for _ in range(n)],
                          'k': [bool(rnd.getrandbits(1)) for _ in range(n)],
+                         'w': [rnd.randint(10, 50) for _ in range(n)],
                          # (object dtype: the default str dtype of pandas 3 is not a string type to tdda; NA-like words are values)
                          's': pd.Series([rnd.choice(['a', 'bc', 'é☃', 'x y', 'q1', 'NA', 'null', 'None']) for _ in range(n)], dtype=object),
                          'd': pd.to_datetime([pd.Timestamp('2020-01-01') + pd.Timedelta(days=rnd.randint(0, 20)) for _ in range(n)])})
@@ -47,6 +48,8 @@ def make_tables(rnd, wd):
     pert.loc[2, 'y'] = float(base['y'].max()) * 1.005
     # a boolean field delivered as 0 / 1 integers: the library repairs field types before verifying, on every input format
     pert['k'] = pert['k'].astype('int64')
+    # an integer field delivered as floating-point whole numbers: what the default (sloppy) type checking forgives and strict does not
+    pert['w'] = pert['w'].astype('float64')
     return base, pert
 
 
@@ -214,6 +217,22 @@ def run(chk):
                             else:
                                 a, b = pd.read_parquet(outpath), pd.read_parquet(lout)
                                 same = list(a.columns) == list(b.columns) and a.astype(str).equals(b.astype(str))
+                        if same and os.path.exists(outpath):
+                            # the records the file names are the records the library's result says failed (by position in the input)
+                            try:
+                                fdf_ = pd.read_csv(outpath) if outpath.endswith('.csv') else pd.read_parquet(outpath)
+                                det_ = lv.detected()
+                                if 'RowNumber' in fdf_.columns and det_ is not None and len(det_) == len(fdf_):
+                                    lab_ = [int(x_) for x_ in (det_['RowNumber'] if 'RowNumber' in det_.columns else det_.index)]
+                                    pos_ = {int(l_): i_ + 1 for i_, l_ in enumerate(ldf.index.tolist())}
+                                    wantrows = [pos_.get(l_, l_) for l_ in lab_] if 'RowNumber' not in det_.columns else lab_
+                                    if kw['write_all']:
+                                        wantrows = list(range(1, len(fdf_) + 1))
+                                    if [int(x_) for x_ in fdf_['RowNumber']] != wantrows:
+                                        same = False
+                                        info['rownumbers'] = {'file': [int(x_) for x_ in fdf_['RowNumber']][:20], 'library_result': wantrows[:20]}
+                            except Exception as ex_:
+                                info['rownumber_check_error'] = '%s: %s' % (type(ex_).__name__, str(ex_)[:120])
                         ev['sameaslib'] = bool(same)
             except Exception as ex:
                 ev['raised'] = 'harness-lib-call %s' % type(ex).__name__
